@@ -168,6 +168,9 @@ func scenarios(th bool) []scenario {
 			out = append(out, scenario{Class: "fault-then-more", Clients: [][]op{h}, Cache: c, Faults: "basic", MaxFaults: 1, Bound: 1})
 		}
 	}
+	// a row the store really loses under a reader that missed the cache, then a submission of the same chain that may
+	// or may not find something cached (two departures: the lost row and one cache answer)
+	out = append(out, scenario{Class: "fault-then-more", Clients: [][]op{{sub("L1"), seq, rd, sub("P1"), seq, rd, read}}, Cache: "advM", Faults: "basic", MaxFaults: 1, Bound: 2})
 	// chains through a CA and through its re-issued twin (same name, key and key identifier), one after the other
 	for _, h := range [][]op{{sub("L1"), sub("L1ri"), seq, read}, {sub("L1ri"), sub("L1"), sub("P1ri"), seq, rd, read}, {sub("P1"), seq, sub("P1ri"), sub("L1"), seq, read}} {
 		for _, c := range []string{"noop", "lru1", "lruN", "advM"} {
